@@ -1,4 +1,5 @@
 import ObiVerif.Model.Clean
+import ObiVerif.Model.CleanF
 import ObiVerif.Model.Race
 import ObiVerif.Driver.Util
 /-! line protocol for C13 (see harness/c13.go):
@@ -100,7 +101,13 @@ def runSample (cfg : Config) (workers : Nat) (sample : List Node) : Except Strin
       -- the closed form of the weights (`weights_closed_form_list`), recomputed next to the loop
       let ns := (sortByCount sample).toArray
       let spec := specWeights (ns.toList.map (·.count)).toArray (edges1 realKernels ns).toArray
-      if spec != outs.map (·.weight) then .error "spec-mismatch" else .ok outs
+      if spec != outs.map (·.weight) then .error "spec-mismatch" else
+      -- round 3: the answer is the run with the float64 arithmetic of the code (`Model/F64.lean`, `cleanSampleA floatArith`);
+      -- where it equals the exact-rational run (`floatSafe`) every theorem of Props/C13 / C13W is about it
+      if !rangeOK realKernels cfg sample then .error "fp-range" else
+      match cleanSampleA floatArith realKernels cfg sample with
+      | .hang => .error "hang"
+      | .ok outsF => .ok outsF
 
 def plain (s : Seq) : Bool := s.all (fun b => 97 ≤ b ∧ b ≤ 122)
 
@@ -133,7 +140,7 @@ def header (ws : List String) : Option (Nat × Config) :=
   | _ => none
 
 def showAnnot (a : Annot) : String :=
-  let nm (n : Nat) : String := String.singleton (Char.ofNat n)
+  let nm (n : Nat) : String := if n == 78 then "NA" else String.singleton (Char.ofNat n)
   s!"{if a.head then 1 else 0}/{a.headCount}/{a.internalCount}/{a.singletonCount}/{a.sampleCount}/" ++
     ",".intercalate (a.status.map (fun (n, st) => s!"{nm n}={st.str}")) ++ "/" ++
     ",".intercalate (a.weight.map (fun (n, w) => s!"{nm n}={w}")) ++ "/" ++
@@ -147,7 +154,7 @@ def runDataset (workers : Nat) (cfg : Config) (db : List Rec) : Except String (L
   match (sampleNames db).mapM (fun name => runSample cfg workers (sampleOf db name)) with
   | .error e => .error e
   | .ok _ =>
-    match cleanDataset realKernels cfg db with
+    match cleanDatasetA floatArith realKernels cfg db with
     | none => .error "hang"
     | some as => .ok as
 
@@ -164,6 +171,56 @@ def runC (workers : Nat) (cfg : Config) (onlyHead : Bool) (items : List (Seq × 
     let out := cliOutput onlyHead as
     if out.isEmpty then "-" else joinSp (out.map (fun (i, a) => s!"{i}:{showAnnot a}"))
 
+/-! ### round 3: `f` (a `g` sample + whether float64 and exact rationals differ on it), `x` (every option of the command,
+the `--save-ratio` table and the `--save-graph` files) -/
+
+def nmS (n : Nat) : String := if n == 78 then "NA" else String.singleton (Char.ofNat n)
+
+/-- item of an `x` line: `hex/a=5,b=7` (a `merged_<attr>` map), `hex/a~7` (no map: attribute `<attr> = a`, count 7),
+`hex/~7` (neither: the sample is "NA") -/
+def parseX (w : String) : Option (Seq × List (Char × Nat)) :=
+  match w.splitOn "/" with
+  | [h, m] =>
+    match m.splitOn "~" with
+    | [k, c] => do
+      let s ← unhex h
+      let n ← c.toNat?
+      if !plain s ∨ n = 0 ∨ n > 1073741824 then none else
+      match k.toList with
+      | [] => pure (s, [('N', n)])
+      | [ch] => if 'a' ≤ ch ∧ ch ≤ 'z' then pure (s, [(ch, n)]) else none
+      | _ => none
+    | _ => parseA w
+  | _ => none
+
+def decodeNuc (c : Nat) : String := String.singleton ("-acgt".toList.getD c '-')
+
+def showRatioRow (r : RatioRow) : String :=
+  s!"{nmS r.sample},s{r.father},{r.fstatus.str},{decodeNuc (r.pair / 5)},{decodeNuc (r.pair % 5)},{r.wFrom},{r.wTo},{r.cFrom},{r.cTo},{r.pos},{r.length},{r.na},{r.nc},{r.ng},{r.nt}"
+
+def showGml (minEval : Nat) (r : Nat × List Out) : String :=
+  let g := gmlOf minEval r.2
+  let b (x : Bool) : String := if x then "1" else "0"
+  s!"{nmS r.1}:" ++ ",".intercalate (g.1.map (fun (i, c, h, sq, w) => s!"{i}.{b c}.{b h}.{sq}.{w}")) ++ "/" ++
+    ",".intercalate (g.2.map (fun (i, f, d) => s!"{i}>{f}.{d}"))
+
+def runX (workers : Nat) (cfg : Config) (onlyHead : Bool) (minEval : Nat) (items : List (Seq × List (Char × Nat))) : String :=
+  let db := toDb items
+  match runDataset workers cfg db with
+  | .error e => e
+  | .ok as =>
+    match runSamples (fun _ s => cleanSampleA floatArith realKernels cfg s) db with
+    | none => "hang"
+    | some res =>
+      let out := cliOutput onlyHead as
+      let recs := if out.isEmpty then "-" else joinSp (out.map (fun (i, a) => s!"{i}:{showAnnot a}"))
+      let rows := sortStr ((ratioRows minEval res).map showRatioRow)
+      -- the file order: by pair code, then samples by increasing name (`ratioRows`)
+      let ordered := (ratioRows minEval res).map showRatioRow
+      recs ++ " | " ++ (if rows.isEmpty then "-" else ";".intercalate rows) ++
+        " | " ++ (if ordered.isEmpty then "-" else ";".intercalate ordered) ++
+        " | " ++ (if res.isEmpty then "-" else ";".intercalate (res.map (showGml minEval)))
+
 def runWords : List String → String
   | ["fact", "soncount"] => "synchronised"   -- the hypothesis `atomic = true` of `graph_schedule_independent`
   | "race" :: rest => runWords rest
@@ -176,6 +233,23 @@ def runWords : List String → String
       | .error e => e
       | .ok outs => if outs.isEmpty then "-" else joinSp (outs.map (showOut outs))
     | _, _ => "bad-op"
+  | "f" :: w :: d :: p :: q :: items =>
+    match header [w, d, p, q], items.mapM parseG with
+    | some (workers, cfg), some items =>
+      if items.any (fun it => it.1 == 0) then "bad-op" else
+      let sample : List Node := items.zipIdx.map (fun (it, i) => { orig := i, count := it.1, seq := it.2 })
+      match runSample cfg workers sample with
+      | .error e => e
+      | .ok outs =>
+        let fx := if floatSafe realKernels cfg sample then "0" else "1"
+        (if outs.isEmpty then "-" else joinSp (outs.map (showOut outs))) ++ " fx=" ++ fx
+    | _, _ => "bad-op"
+  | "x" :: w :: d :: p :: q :: h :: me :: attr :: items =>
+    match header [w, d, p, q], items.mapM parseX, me.toNat? with
+    | some (workers, cfg), some items, some minEval =>
+      if items.any (fun it => it.2.any (fun kv => kv.2 == 0)) ∨ (h ≠ "0" ∧ h ≠ "1") ∨ attr.isEmpty then "bad-op"
+      else runX workers cfg (h == "1") minEval items
+    | _, _, _ => "bad-op"
   | "a" :: w :: d :: p :: q :: items =>
     match header [w, d, p, q], items.mapM parseA with
     | some (workers, cfg), some items =>
